@@ -42,6 +42,9 @@ EFFECT_NAMES = ["bold", "faint", "underline", "blink", "crossed"]
 TEXTS = ["x", "", "[", "m", "0;1m", "[31m", "38:5:1", "a b", "é中", "line1\nline2", ";", "\t", "0", "abc" * 5]
 INVALID = [-1, 256, 1000, -256, (0, 0, 6), (-1, 0, 0), (6, 6, 6), (1, 2), (1, 2, 3, 4), (), "g24", "g-1", "gx",
            "g", "g99", "PINK", "red", "Red", "", "GRAY", 1.5, 300.0, "255", "#ff0000",
+           # misspelled grays and names
+           # ('g 5', 'g5 ', 'g+5' are tolerated by int() and accepted as g5: spelling leniency, not asserted either way)
+           "gg5", "ggg12", "gg0", "gg23", "G5", " g5", "g5.0", "REDD", "RED ", "g2g",
            # numerically equal to valid codes, but not ints (must not be let through by a cache keyed on ==)
            1.0, 0.0, 7.0, 200.0, 255.0, Fraction(3), Decimal(5), (1.0, 2, 3), (0, 0, 5.0)]
 
@@ -228,6 +231,22 @@ def run_shard(ctx):
             ctx.violation("malformed-or-bleeding-sequence", {"err": str(err), "out": str(res)[:80]}, case)
         if CHText.strip_colors(str(res)) != res.plain_text() or res.plain_text() != "".join(c for c, _ in model):
             ctx.violation("strip-colors-leaves-sequences", {"stripped": CHText.strip_colors(str(res))[:80]}, case)
+        if len(chunks) <= 5:
+            # the same chunks handed to the list constructor the package's own printers use, with chunks of
+            # empty text (in other colours) in between: they show nothing and colour nothing
+            with_empty = []
+            for k, (c, _, _) in enumerate(chunks):
+                if rng.random() < 0.5:
+                    with_empty.append(chunks[(k + 1) % len(chunks)][0].clone(""))
+                with_empty.append(c)
+            made = CHText.make(with_empty)
+            mmodel = [(ch, want) for _, text, want in chunks for ch in text]
+            ctx.count("texts_made_from_chunk_lists")
+            try:
+                if sgr.cells(str(made)) != mmodel or len(made) != len(mmodel):
+                    ctx.violation("text-made-from-a-chunk-list-shows-wrong-colours", {"out": str(made)[:120]}, case)
+            except sgr.SgrError as err:
+                ctx.violation("malformed-or-bleeding-sequence", {"err": str(err), "out": str(made)[:80]}, case)
         if len(chunks) <= 5:
             # the same chunks assembled by join on a coloured separator (a chunk or a text)
             (sep, sep_text, sep_want), items = chunks[0], chunks[1:]
